@@ -74,4 +74,158 @@ theorem setCharm_bits_vindicated (c : Nat) :
   · refine ⟨by omega, by omega, by omega, by omega, by omega, by omega⟩
 
 
+
+theorem setCharm_def (c b : Nat) : setCharm c b = if (c / b) % 2 = 1 then c else c + b := rfl
+
+theorem nonSatCharms_setBurned (c : Nat) :
+    nonSatCharms (setCharm c charmBurned) = setCharm (nonSatCharms c) charmBurned := by
+  obtain ⟨h1, h2, h3, h4, h5, h6⟩ := setCharm_bits_burned c
+  obtain ⟨u0, u1, u2, u3, u4, g6⟩ := nonSat_bits c
+  show nonSatCharms (setCharm c 4096) = setCharm (nonSatCharms c) 4096
+  rw [nonSatCharms_def (setCharm c 4096), h1, h2, h3, h4, h5, h6, setCharm_def (nonSatCharms c), g6, nonSatCharms_def c]
+  have b1 : c / 2 % 2 < 2 := Nat.mod_lt _ (by decide)
+  have b2 : c / 16 % 2 < 2 := Nat.mod_lt _ (by decide)
+  have b3 : c / 128 % 2 < 2 := Nat.mod_lt _ (by decide)
+  have b4 : c / 256 % 2 < 2 := Nat.mod_lt _ (by decide)
+  have b5 : c / 1024 % 2 < 2 := Nat.mod_lt _ (by decide)
+  have b6 : c / 4096 % 2 < 2 := Nat.mod_lt _ (by decide)
+  clear h1 h2 h3 h4 h5 h6
+  generalize c / 2 % 2 = x1 at *
+  generalize c / 16 % 2 = x2 at *
+  generalize c / 128 % 2 = x3 at *
+  generalize c / 256 % 2 = x4 at *
+  generalize c / 1024 % 2 = x5 at *
+  generalize c / 4096 % 2 = x6 at *
+  generalize nonSatCharms c = y at *
+  split <;> omega
+
+theorem nonSatCharms_setLost (c : Nat) :
+    nonSatCharms (setCharm c charmLost) = setCharm (nonSatCharms c) charmLost := by
+  obtain ⟨h1, h2, h3, h4, h5, h6⟩ := setCharm_bits_lost c
+  obtain ⟨u0, g2, u2, u3, u4, u5⟩ := nonSat_bits c
+  show nonSatCharms (setCharm c 16) = setCharm (nonSatCharms c) 16
+  rw [nonSatCharms_def (setCharm c 16), h1, h2, h3, h4, h5, h6, setCharm_def (nonSatCharms c), g2, nonSatCharms_def c]
+  have b1 : c / 2 % 2 < 2 := Nat.mod_lt _ (by decide)
+  have b2 : c / 16 % 2 < 2 := Nat.mod_lt _ (by decide)
+  have b3 : c / 128 % 2 < 2 := Nat.mod_lt _ (by decide)
+  have b4 : c / 256 % 2 < 2 := Nat.mod_lt _ (by decide)
+  have b5 : c / 1024 % 2 < 2 := Nat.mod_lt _ (by decide)
+  have b6 : c / 4096 % 2 < 2 := Nat.mod_lt _ (by decide)
+  clear h1 h2 h3 h4 h5 h6
+  generalize c / 2 % 2 = x1 at *
+  generalize c / 16 % 2 = x2 at *
+  generalize c / 128 % 2 = x3 at *
+  generalize c / 256 % 2 = x4 at *
+  generalize c / 1024 % 2 = x5 at *
+  generalize c / 4096 % 2 = x6 at *
+  generalize nonSatCharms c = y at *
+  split <;> omega
+
+theorem nonSatCharms_setUnbound (c : Nat) :
+    nonSatCharms (setCharm c charmUnbound) = setCharm (nonSatCharms c) charmUnbound := by
+  obtain ⟨h1, h2, h3, h4, h5, h6⟩ := setCharm_bits_unbound c
+  obtain ⟨u0, u1, u2, g4, u4, u5⟩ := nonSat_bits c
+  show nonSatCharms (setCharm c 256) = setCharm (nonSatCharms c) 256
+  rw [nonSatCharms_def (setCharm c 256), h1, h2, h3, h4, h5, h6, setCharm_def (nonSatCharms c), g4, nonSatCharms_def c]
+  have b1 : c / 2 % 2 < 2 := Nat.mod_lt _ (by decide)
+  have b2 : c / 16 % 2 < 2 := Nat.mod_lt _ (by decide)
+  have b3 : c / 128 % 2 < 2 := Nat.mod_lt _ (by decide)
+  have b4 : c / 256 % 2 < 2 := Nat.mod_lt _ (by decide)
+  have b5 : c / 1024 % 2 < 2 := Nat.mod_lt _ (by decide)
+  have b6 : c / 4096 % 2 < 2 := Nat.mod_lt _ (by decide)
+  clear h1 h2 h3 h4 h5 h6
+  generalize c / 2 % 2 = x1 at *
+  generalize c / 16 % 2 = x2 at *
+  generalize c / 128 % 2 = x3 at *
+  generalize c / 256 % 2 = x4 at *
+  generalize c / 1024 % 2 = x5 at *
+  generalize c / 4096 % 2 = x6 at *
+  generalize nonSatCharms c = y at *
+  split <;> omega
+
+theorem nonSatCharms_setVindicated (c : Nat) :
+    nonSatCharms (setCharm c charmVindicated) = setCharm (nonSatCharms c) charmVindicated := by
+  obtain ⟨h1, h2, h3, h4, h5, h6⟩ := setCharm_bits_vindicated c
+  obtain ⟨u0, u1, u2, u3, g5, u5⟩ := nonSat_bits c
+  show nonSatCharms (setCharm c 1024) = setCharm (nonSatCharms c) 1024
+  rw [nonSatCharms_def (setCharm c 1024), h1, h2, h3, h4, h5, h6, setCharm_def (nonSatCharms c), g5, nonSatCharms_def c]
+  have b1 : c / 2 % 2 < 2 := Nat.mod_lt _ (by decide)
+  have b2 : c / 16 % 2 < 2 := Nat.mod_lt _ (by decide)
+  have b3 : c / 128 % 2 < 2 := Nat.mod_lt _ (by decide)
+  have b4 : c / 256 % 2 < 2 := Nat.mod_lt _ (by decide)
+  have b5 : c / 1024 % 2 < 2 := Nat.mod_lt _ (by decide)
+  have b6 : c / 4096 % 2 < 2 := Nat.mod_lt _ (by decide)
+  clear h1 h2 h3 h4 h5 h6
+  generalize c / 2 % 2 = x1 at *
+  generalize c / 16 % 2 = x2 at *
+  generalize c / 128 % 2 = x3 at *
+  generalize c / 256 % 2 = x4 at *
+  generalize c / 1024 % 2 = x5 at *
+  generalize c / 4096 % 2 = x6 at *
+  generalize nonSatCharms c = y at *
+  split <;> omega
+
+theorem hasCharm_nonSat_vindicated (c : Nat) :
+    hasCharm (nonSatCharms c) charmVindicated = hasCharm c charmVindicated := by
+  obtain ⟨_, _, _, _, g5, _⟩ := nonSat_bits c
+  show (nonSatCharms c / 1024 % 2 == 1) = (c / 1024 % 2 == 1)
+  rw [g5]
+
+/-- `rarityCharm` is one of six values -/
+
+theorem rarityCharm_cases (s : Nat) :
+    rarityCharm s = 2048 ∨ rarityCharm s = 8 ∨ rarityCharm s = 4 ∨ rarityCharm s = 64 ∨ rarityCharm s = 512 ∨
+    rarityCharm s = 0 := by
+  unfold rarityCharm charmMythic charmLegendary charmEpic charmRare charmUncommon
+  simp only []
+  split
+  · exact Or.inl rfl
+  · split
+    · exact Or.inr (Or.inl rfl)
+    · split
+      · exact Or.inr (Or.inr (Or.inl rfl))
+      · split
+        · exact Or.inr (Or.inr (Or.inr (Or.inl rfl)))
+        · split
+          · exact Or.inr (Or.inr (Or.inr (Or.inr (Or.inl rfl))))
+          · exact Or.inr (Or.inr (Or.inr (Or.inr (Or.inr rfl))))
+
+/-- the shape of `Sat::charms`: a sum of distinct sat-derived bits -/
+
+theorem satCharms_shape (s : Nat) : ∃ a b c r : Nat, (a = 0 ∨ a = 1) ∧ (b = 0 ∨ b = 1) ∧ (c = 0 ∨ c = 1) ∧
+    (r = 2048 ∨ r = 8 ∨ r = 4 ∨ r = 64 ∨ r = 512 ∨ r = 0) ∧ satCharms s = 32 * a + 8192 * b + c + r := by
+  refine ⟨if 45000000000 ≤ s ∧ s < 50000000000 then 1 else 0, if satPalindrome s then 1 else 0,
+    if s % 100000000 = 0 then 1 else 0, rarityCharm s, ?_, ?_, ?_, rarityCharm_cases s, ?_⟩
+  · split <;> simp
+  · split <;> simp
+  · split <;> simp
+  · unfold satCharms charmNineball charmPalindrome charmCoin
+    split <;> split <;> split <;> omega
+
+/-- adding the sat's charms to a value made of `cursed`/`reinscription` bits is invisible -/
+
+theorem nonSatCharms_add_satCharms (c1 s : Nat) (h : c1 = 0 ∨ c1 = 2 ∨ c1 = 128 ∨ c1 = 130) :
+    nonSatCharms (c1 + satCharms s) = c1 := by
+  obtain ⟨a, b, c, r, ha, hb, hc, hr, he⟩ := satCharms_shape s
+  rw [he]
+  rcases h with rfl | rfl | rfl | rfl <;>
+    rcases hr with rfl | rfl | rfl | rfl | rfl | rfl <;>
+    rcases ha with rfl | rfl <;> rcases hb with rfl | rfl <;> rcases hc with rfl | rfl <;> rfl
+
+theorem nonSatCharms_c1 (c1 : Nat) (h : c1 = 0 ∨ c1 = 2 ∨ c1 = 128 ∨ c1 = 130) : nonSatCharms c1 = c1 := by
+  rcases h with rfl | rfl | rfl | rfl <;> rfl
+
+/-- the value before the sat's charms are or-ed in -/
+
+theorem c1_cases (cursed reinscription : Bool) :
+    (if reinscription then setCharm (if cursed then charmCursed else 0) charmReinscription
+      else (if cursed then charmCursed else 0)) = 0 ∨
+    (if reinscription then setCharm (if cursed then charmCursed else 0) charmReinscription
+      else (if cursed then charmCursed else 0)) = 2 ∨
+    (if reinscription then setCharm (if cursed then charmCursed else 0) charmReinscription
+      else (if cursed then charmCursed else 0)) = 128 ∨
+    (if reinscription then setCharm (if cursed then charmCursed else 0) charmReinscription
+      else (if cursed then charmCursed else 0)) = 130 := by
+  cases cursed <;> cases reinscription <;> decide
+
 end Ord.Index
